@@ -4,6 +4,9 @@ from __future__ import annotations
 ITEM = {
     "unwrap": (["let v = opt.unwrap();"], 0, ["let _ = v;"]),
     "expect": (["let v = opt.expect(\"value present\");"], 0, ["let _ = v;"]),
+    "unwrapChain2": (["let v = opt.map(|x| x + 1).unwrap().checked_add(1).unwrap();"], 0, ["let _ = v;"]),
+    "unwrapChainLines": (["let v = opt", "    .map(|x| x + 1)", "    .unwrap()", "    .checked_add(1)", "    .unwrap();"], 0, ["let _ = v;"]),
+    "expectThenUnwrap": (["let v = opt.expect(\"value present\").checked_add(1).unwrap();"], 0, ["let _ = v;"]),
     # the source `d` is used again afterwards, so the clone is not "unnecessary"
     "clonePlain": (["let c = d.clone();"], 0, ["let _ = c.len() + d.len();"]),
     "cloneChain": (["let c = d.clone().clone();"], 0, ["let _ = c.len() + d.len();"]),
